@@ -10,7 +10,7 @@ are recorded in ``ctx.notes`` / listed by the harness.
 import numpy as np
 import z3
 
-from .core import Poly, SComplex, SReal, cur, const_array
+from .core import Poly, SComplex, SReal, SymArray, cur, const_array
 
 
 def _c(e):
@@ -75,7 +75,7 @@ def fresh_cmat(ctx, name, shape, real=False, hermitian=False):
             else:
                 im = ctx.real('%s_%d_%d_im' % (tag, i, j))
             out[i, j] = SComplex(re, im)
-    return out
+    return out.view(SymArray)
 
 
 def eye(n):
@@ -106,11 +106,12 @@ def add_hyp_zero(ctx, name, m):
 def _ret(a, like_real):
     """return real SReal entries if the problem is real"""
     if not like_real:
-        return a
+        return a.view(SymArray) if isinstance(a, np.ndarray) and \
+            a.dtype == object else a
     out = np.empty(a.shape, dtype=object)
     for idx in np.ndindex(*a.shape):
         out[idx] = a[idx].re
-    return out
+    return out.view(SymArray)
 
 
 # ---------------------------------------------------------------------------
